@@ -197,6 +197,25 @@ SegRules(t, sa, inv, lcp, minLen, maxLen, cbs, pairwise) ==
 (*            the rank sort (TrSortRounds.tla)                             *)
 (*  segments  t, sa, lcp, minlen, maxlen, cbs (callbacks in call order)    *)
 (***************************************************************************)
+(* ---- scanLCP as a pure operator (the step machine is Segments.tla): the    *)
+(* ---- callbacks in call order, each <<m, set of the suffixes sa[top.j..j)>> *)
+RECURSIVE ScanInner(_, _, _, _, _, _, _, _), ScanOuter(_, _, _, _, _, _)
+ScanInner(sa, lcp, minLen, maxLen, j, nn, lb, st) ==        \* st: <<stack, out>>
+  LET stack == st[1]
+      top   == stack[Len(stack)]
+  IN IF nn > top[1] THEN ScanOuter(sa, lcp, minLen, maxLen, j + 1, <<Append(stack, <<nn, lb>>), st[2]>>)
+     ELSE IF nn = top[1] THEN ScanOuter(sa, lcp, minLen, maxLen, j + 1, st)
+     ELSE LET out1 == IF top[1] >= minLen
+                      THEN Append(st[2], <<top[1], { sa[i + 1] : i \in top[2]..j - 1 }>>) ELSE st[2]
+              stk1 == SubSeq(stack, 1, Len(stack) - 1)
+          IN IF stk1 = <<>> THEN out1
+             ELSE ScanInner(sa, lcp, minLen, maxLen, j, nn, top[2], <<stk1, out1>>)
+ScanOuter(sa, lcp, minLen, maxLen, j, st) ==
+  LET nn == IF j < Len(lcp) THEN (IF lcp[j + 1] > maxLen THEN maxLen ELSE lcp[j + 1]) ELSE -1 IN
+  ScanInner(sa, lcp, minLen, maxLen, j, nn, j - 1, st)
+ScanLCPCalls(sa, lcp, minLen, maxLen) ==
+  IF Len(sa) = 0 THEN <<>> ELSE ScanOuter(sa, lcp, minLen, maxLen, 1, <<<< <<0, 0>> >>, <<>>>>)
+
 (* ---- the stages of the sort driver against the stage model ---- *)
 DSS == INSTANCE DivSufSort
 TRS == INSTANCE TrSortImpl
@@ -367,7 +386,14 @@ SuffixRules(e) ==
            \cup { (* the documentation allows Segments to modify sa only: a caller  *)
                   (* that reuses its LCP table for a second call (another maxLen)  *)
                   (* must get the groups of the text again                         *)
-                  <<"C10.lcp_untouched", e.lcp_after = e.lcp>> }
+                  <<"C10.lcp_untouched", e.lcp_after = e.lcp>>,
+                  (* the transcribed scan predicts the callbacks one by one: same *)
+                  (* m and the same set of suffixes, in the same order (a         *)
+                  (* difference inside the C10 rules is informational)            *)
+                  <<"DRIFT10.scan_exact",
+                    LET calls == TLCEval(ScanLCPCalls(e.sa, e.lcp, e.minlen, e.maxlen)) IN
+                    /\ Len(calls) = Len(e.cbs)
+                    /\ \A k \in 1..Len(calls) : calls[k][1] = e.cbs[k][1] /\ calls[k][2] = SegSet(e.cbs[k])>> }
     [] e.op = "panic" ->
       IF e.in = "segments" THEN { <<"C10.no_panic", FALSE>> }
       ELSE IF e.in \in {"suffixcfg", "suffixstages", "trcopy", "sortprim", "trsort", "lcplcs"} THEN { <<"DRIFT09.no_panic", FALSE>> }
